@@ -23,9 +23,9 @@ CHECKS = {
     ),
     "C04": dict(
         level="exploration",
-        text="streampos: up to 4 forked handles of one stream-cipher context, scheduler-chosen process (into a dirty destination), process_mut, fork, seek (0, mid-range, 2^32-1, from mid-block) and apply-twice; every output must be input XOR the one-call stream of a fresh context at the model's absolute position (far seeks: fresh-context seek plus adjacent-seek consistency; wrap past 2^32 blocks must land on block 0). drg: request sequences bytes<N>/fill_bytes<N>/fill_slice/u32/u64 into destinations pre-filled with PRNG garbage; outputs must be the successive bytes of the one-call ChaCha keystream. 1M+1M runs quick, 60M+60M thorough.",
+        text="streampos: up to 4 forked handles of one stream-cipher context, scheduler-chosen process (into a dirty destination), process_mut, fork, seek (0, mid-range, 2^32-1, from mid-block) and apply-twice; every output must be input XOR the one-call stream of a fresh context at the model's absolute position (far seeks: fresh-context seek plus adjacent-seek consistency; wrap past 2^32 blocks must land on block 0). drg: request sequences bytes<N>/fill_bytes<N>/fill_slice/u32/u64 into destinations pre-filled with PRNG garbage; outputs must be the successive bytes of the specified ChaCha keystream for that seed (independent block-function model, all-zero nonce, from block 0). 1M+1M runs quick, 60M+60M thorough.",
         ref="DESIGN.md §4.3",
-        note="Self-referential ground truth on purpose (the library's own one-call stream), so a wrong-but-consistent cipher trips C03, not C04. u32/u64 byte order is not part of the property: either reading is accepted.",
+        note="streampos uses self-referential ground truth on purpose (the library's own one-call stream: the clause is about position semantics, and a wrong-but-consistent cipher trips C03); the DRG clause names the ChaCha keystream itself, so drg is judged against the independent model. u32/u64 byte order is not part of the property: either reading is accepted.",
         technique=TECH + "; oracle = one-call stream of a fresh context at the model position",
     ),
     "C05": dict(
